@@ -7,7 +7,7 @@ CONSTANTS
   MaxEvents = 2
   MaxLeaves = 4
   MaxOps = 4
-  Faults = {}
+  Faults = {"reorg"}
   AllowGap = TRUE
   AllowRestart = FALSE
   AllowReorg = TRUE
